@@ -1,0 +1,7 @@
+//go:build !verif
+
+package rpc
+
+// The verification accessors of verif_on.go (VerifServer, VerifClient,
+// VerifCalcUpdate, ...) exist with the build tag "verif" only. They add no
+// call sites to the package, so there is nothing to stub out here.
